@@ -216,6 +216,27 @@ def _run_case(case, pick, ak, np, stats):
     why = l2replay.expect(case, run, l2replay._STATE, stats, to_value=val)
     if why:
         return "%s(i=%s, j=%s): %s" % (prog, i, j, why)
+    # a history on ONE ak.Array object: used in compiled code, then a field assigned in place (arr["x"] = ..., the only mutation the
+    # high-level Array offers), then used again: compiled code must see what the interpreter sees now, not the view it cached
+    if case["from"].get("c") == "Record" and "x" in case["from"].get("names", []) and len(arr) > 1 and stats["n"] % 3 == 0:
+        fx = F["p_field_x"]
+        arr2 = ak.Array(lay)
+        try:
+            fx(arr2)
+            arr2["x"] = arr2.x[::-1]
+            want = ak.to_list(arr2.x)
+        except (ValueError, TypeError, IndexError, KeyError, AttributeError):
+            want = None
+        if want is not None:
+            try:
+                got = val(fx(arr2))
+            except Exception as e:
+                return "field_x after arr['x'] = arr.x[::-1] on an array already seen by compiled code: %s: %s" % (type(e).__name__, str(e)[:200])
+            stats["setitem_checked"] = stats.get("setitem_checked", 0) + 1
+            _nz = lambda o: json.dumps(o, default=lambda z: z.item() if hasattr(z, "item") else list(z))
+            if _nz(got) != _nz(want):
+                return ("field_x after arr['x'] = arr.x[::-1] on an array already seen by compiled code: compiled code reads %s, the interpreter %s"
+                        % (_nz(got)[:120], _nz(want)[:120]))
     # the interpreter gives the same answer for the same expression (on the same stand-in array)
     if stats["n"] % 25 == 0 and case["exp"]["ok"] == 1:
         import sys as _sys
@@ -255,7 +276,7 @@ def replay_numba(l2_path, cases_path, seed=0, jobs=16, max_forms=None, max_cases
             stride = len(offs) / float(max_cases_per_form)
             offs = [offs[int(q * stride)] for q in range(max_cases_per_form)]
         tasks.append((cases_path, offs, seed, k))
-    total = {"n": 0, "ok": 0, "unspec": 0, "err_expected": 0, "compiled_forms": 0, "refcount_checked": 0, "forms_total": len(groups)}
+    total = {"n": 0, "ok": 0, "unspec": 0, "err_expected": 0, "compiled_forms": 0, "refcount_checked": 0, "setitem_checked": 0, "forms_total": len(groups)}
     fails = []
     try:
         with ProcessPoolExecutor(jobs, initializer=_init, initargs=(l2_path,)) as ex:
